@@ -49,6 +49,47 @@ def gen_priv(rng, tier):
             for sp in SPELLINGS:
                 ops.append("call %s ns=%s session=u" % (ep, sp))
         cases.append(Case("sweep-" + name, ops, True, "exhaustive"))
+    cases.extend(gen_users(rng, tier, ENDPOINTS))
+    return cases
+
+
+# privilege parameters as the console sends them (absent key = absent field): creation, then changes
+USER_PARAMS = ["", "wall=0 w=nsa", "wall=0 w=nsa,nsb", "wall=1 b=nsb", "wall=0 w=@,nsa b=nsa", "wall=0 w=- ", "w=nsa",
+               "wall=1 ball=0", "ball=1", "b=-", "w=-", "w=nsb b=nsb", "wall=0", "wall=0 w=- b=-", "b=nsa,nsb"]
+
+
+def gen_users(rng, tier, endpoints):
+    """users created and changed through the console's own user endpoints, then logged in for real: the session's
+    privilege is what add_user / update_user stored (revocations included), not something the harness fabricates"""
+    cases = []
+    big = tier == "thorough"
+    reads = [e for e in endpoints if e.endswith(("list", "info", "get"))]
+    for i in range(60 if big else 10):
+        ops = ["seed", ("mkuser a " + rng.choice(USER_PARAMS[:7])).strip(), "login a as=s0"]
+        sess = "s0"
+        for step in range(rng.randrange(1, 4)):
+            for ep in rng.sample(reads, 3) + rng.sample(endpoints, 2):
+                ops.append("call %s ns=%s session=%s" % (ep, rng.choice(SPELLINGS), sess))
+            ops.append(("upduser a " + rng.choice(USER_PARAMS)).strip())
+            sess = "s%d" % (step + 1)
+            ops.append("login a as=%s" % sess)
+        for ep in rng.sample(reads, 4) + rng.sample(endpoints, 3):
+            for sp in rng.sample(SPELLINGS, 2):
+                ops.append("call %s ns=%s session=%s" % (ep, sp, sess))
+        cases.append(Case("users-%d" % i, ops, True, "random"))
+    # directed: every way of taking a namespace away again
+    for name, first, change in (("clear-whitelist", "wall=0 w=nsa", "w=-"), ("clear-both", "wall=0 w=nsa,nsb b=nsb", "w=- b=-"),
+                                ("blacklist-it", "wall=1", "b=nsa"), ("all-off", "wall=1", "wall=0"),
+                                ("swap", "wall=0 w=nsa", "w=nsb"), ("clear-blacklist", "wall=1 b=nsa", "b=-")):
+        ops = ["seed", "mkuser a " + first, "login a as=s0"]
+        for ep in ("v2.config.list", "v2.service.list", "v2.instance.list", "v2.config.add", "v2.namespaces.list"):
+            ops.append("call %s ns=nsa session=s0" % ep)
+        ops += ["upduser a " + change, "login a as=s1"]
+        for ep in ("v2.config.list", "v2.service.list", "v2.instance.list", "v2.config.add", "v2.config.info", "v2.namespaces.list",
+                   "v1.config.list", "v1.services.list"):
+            for sp in ("nsa", "nsb", "omit"):
+                ops.append("call %s ns=%s session=s1" % (ep, sp))
+        cases.append(Case("users-" + name, ops, True, "directed"))
     return cases
 
 
@@ -68,7 +109,9 @@ class C18(Prop):
         "namespace privilege is built by the real UserDo::build_namespace_privilege from stored flags and lists: whitelist "
         "all/empty/{nsa}/{default,nsa}/{nsa,nsb} x blacklist empty/all/{nsb}/{nsa}/{default} x enabled or not; 37 data "
         "endpoints of both API versions (configuration, service, instance, namespace: list/read/create/modify/delete) x "
-        "namespace spellings nsa, nsb, an unknown one, 'public', empty, omitted; fixtures in nsa, nsb and the default "
+        "namespace spellings nsa, nsb, an unknown one, 'public', empty, omitted; plus users created and changed through the "
+        "console's own /user/add and /user/update (privilege fields present or absent, lists emptied, flags flipped) and "
+        "logged in through the real /login/login, so that the session carries what add_user / update_user stored; fixtures in nsa, nsb and the default "
         "namespace whose names carry a marker; writes are verified through the actors and undone. Oracle = "
         "Privilege.build/check applied to the implementation's answer: nothing of an excluded namespace is shown, no "
         "write there takes effect, nothing permitted is refused. non-trivial = >=5 calls"))]
